@@ -37,17 +37,26 @@ Texts == << [unit |-> <<>>, reps |-> 1],
             [unit |-> <<CA, CB, NL>>, reps |-> 3000],          \* larger than the default memory buffer
             [unit |-> <<CA, FF, CB, NL>>, reps |-> 2500],
             [unit |-> <<CA, CR, NL, CB, CR, NL>>, reps |-> 1],  \* CR LF line ends
-            [unit |-> <<CA, CR, CB>>, reps |-> 1] >>
+            [unit |-> <<CA, CR, CB>>, reps |-> 1],
+            \* a short first line followed by a line longer than any look-ahead a comparison may use
+            [unit |-> <<CA, NL>> \o [j \in 1..130 |-> CB] \o <<NL>>, reps |-> 1],
+            [unit |-> <<CA, NL>> \o [j \in 1..130 |-> CB], reps |-> 1] >>
 Kinds == {"file", "program"}
 \* num-lines / matches -full / equals -contents-of / run / the lines after the first (a consumer that reads the
 \* head of the text in one pass over its lines and the rest in a second one) / the first line only
-Observers == {"lines", "str", "file", "stdin", "tail", "head"}
+\* / "notfirst": the text compared with a text held in memory - its own first line - which it equals only if it has
+\* no more than that line
+Observers == {"lines", "str", "file", "stdin", "tail", "head", "notfirst"}
 
 RECURSIVE CountNL(_)
 CountNL(s) == IF s = <<>> THEN 0 ELSE (IF Head(s) = NL THEN 1 ELSE 0) + CountNL(Tail(s))
 EndsNL(s) == s # <<>> /\ s[Len(s)] = NL
 \* lines are divided at NL only
 NumLines(tx) == tx.reps * CountNL(tx.unit) + (IF tx.unit # <<>> /\ ~EndsNL(tx.unit) THEN 1 ELSE 0)
+RECURSIVE UpToNL(_)
+UpToNL(q) == IF q = <<>> THEN <<>> ELSE IF Head(q) = NL THEN <<NL>> ELSE <<Head(q)>> \o UpToNL(Tail(q))
+FirstLine(tx) == UpToNL(tx.unit)                       \* (the unit of every text with reps > 1 ends a line)
+IsOnlyFirstLine(tx) == tx.reps = 1 /\ FirstLine(tx) = tx.unit
 TailLines(tx) == IF NumLines(tx) = 0 THEN 0 ELSE NumLines(tx) - 1
 HeadLines(tx) == IF NumLines(tx) = 0 THEN 0 ELSE 1
 TextLen(tx) == tx.reps * Len(tx.unit)
